@@ -141,7 +141,7 @@ fn client_source(g: &mut Rng, names: &[String], via: &str) -> String {
     let objs: Vec<String> = names.iter().filter(|n| matches!(n.as_str(), "visa" | "visb" | "visc" | "visd" | "guarded" | "checked" | "nested" | "comp" | "viasuper" | "halfbad" | "outer" | "selfdep" | "plusdeep" | "plussub" | "plusobj")).cloned().collect();
     let vis: Vec<String> = objs.iter().filter(|n| n.starts_with("vis")).cloned().collect();
     let fo = |g: &mut Rng| if !vis.is_empty() && g.chance(3, 5) { g.pick(&vis).clone() } else if objs.is_empty() { "nested".to_string() } else { g.pick(&objs).clone() };
-    match g.below(38) {
+    match g.below(42) {
         0 => format!("{l}.{}", f(g)),
         1 => format!("local l = {l}; [l.{}, l.{}]", f(g), f(g)),
         2 => format!("local l = {l}; {{ a: l.{}, b: l.{} }}", f(g), f(g)),
@@ -175,6 +175,12 @@ fn client_source(g: &mut Rng, names: &[String], via: &str) -> String {
         28 => format!("local l = {l}; local s = l.{} + l.{}; [std.objectFieldsAll(s), std.objectFields(s + l.{}), s]", fo(g), fo(g), fo(g)),
         29 => format!("local l = {l}; [l.{a} + l.{b} == l.{b} + l.{a}, std.objectHasAll(l.{a} + l.{b}, \"h\"), std.objectHas(l.{b} + l.{a}, \"v\")]", a = fo(g), b = fo(g)),
         30 => format!("local l = {l}; {{ r: l.{} }} + {{ r+: l.{} }}", fo(g), fo(g)),
+        // format strings built at run time whose %(key) names no source loaded so far may have interned (ghost.jsonnet,
+        // often loaded later, does): the same string is formatted against arrays / objects without and with the field
+        37 => "(\"<%(gho\" + \"st)s>\") % { other: 1 }".to_string(),
+        38 => "std.format(\"<%(gho\" + \"st)s>\", [7]) + (\"<%(gho\" + \"st)05d|%(sha\" + \"llow)s>\") % { ghost: 3, shallow: \"s\" }".to_string(),
+        39 => format!("local l = {l}; (\"<%(gho\" + \"st)s>\") % (l.guarded + {{ ghost: l.shallow }})"),
+        40 => "{ ghost: \"boo\", r: (\"<%(gho\" + \"st)s>\") % self }.r".to_string(),
         33 => format!("local l = {l}; [std.objectRemoveKey(l.{a}, \"a\"), std.mergePatch(l.{b}, {{ a: null, k: null }}), l.{a}]", a = fo(g), b = fo(g)),
         34 => format!("local l = {l}; [l.{a} {{ a: 10 }}, l.{b} + {{ a:: 5, xs+: [9] }}, std.objectRemoveKey(l.{a}, \"xs\")]", a = fo(g), b = fo(g)),
         35 => format!("local l = {l}; local o = l.{}; [std.length(o), std.objectFields(o), o]", fo(g)),
